@@ -143,6 +143,25 @@ def ensure_facts(repo=None, force=False, log=None):
         lock.close()
 
 
+def load_facts(force=False, log=None, repo=None):
+    """ensure_facts and the reading of the facts files, both under the cache lock: a concurrent run that re-extracts the same tree
+    (thorough tier) or prunes old facts directories cannot pull the files away while they are being read.
+    returns (Facts, facts_dir, tree_hash, n_files, extracted, seconds)"""
+    from .facts import Facts
+    if os.environ.get("CW_FACTS_DIR"):
+        fdir, hsh, nfiles, extracted, secs = ensure_facts(repo, force, log)
+        return Facts(fdir), fdir, hsh, nfiles, extracted, secs
+    os.makedirs(CACHE, exist_ok=True)
+    outer = open(os.path.join(CACHE, "lock.read"), "w")
+    fcntl.flock(outer, fcntl.LOCK_EX)
+    try:
+        fdir, hsh, nfiles, extracted, secs = ensure_facts(repo, force, log)
+        return Facts(fdir), fdir, hsh, nfiles, extracted, secs
+    finally:
+        fcntl.flock(outer, fcntl.LOCK_UN)
+        outer.close()
+
+
 if __name__ == "__main__":
     try:
         r = ensure_facts(force="--force" in sys.argv, log=lambda m: print(m, file=sys.stderr))
